@@ -9,6 +9,9 @@ import asyncio
 from cryptography import x509
 
 from ..protocol.constants import CRLF, MAX_RESPONSE_BODY_SIZE
+
+# Longest response header accepted: "<STATUS> <META>" with a 1024-byte meta
+MAX_RESPONSE_HEADER_SIZE = 2 + 1 + 1024
 from ..protocol.response import GeminiResponse
 
 
@@ -75,6 +78,19 @@ class GeminiClientProtocol(asyncio.Protocol):
             data: Raw bytes received from the server.
         """
         self.buffer += data
+
+        # A header line longer than the protocol allows is an error, however
+        # the bytes were split into reads
+        if not self.header_received:
+            header_end = self.buffer.find(CRLF)
+            if header_end > MAX_RESPONSE_HEADER_SIZE or (
+                header_end < 0 and len(self.buffer) > MAX_RESPONSE_HEADER_SIZE + 1
+            ):
+                self._set_error(ValueError("Response header too long"))
+                self.header_received = True
+                if self.transport:
+                    self.transport.close()
+                return
 
         # Check if we've received the complete header
         if not self.header_received and CRLF in self.buffer:
@@ -181,7 +197,7 @@ class GeminiClientProtocol(asyncio.Protocol):
                             break
                 try:
                     body = self.buffer.decode(charset)
-                except UnicodeDecodeError as e:
+                except (UnicodeDecodeError, LookupError) as e:
                     self.response_future.set_exception(e)
                     return
             else:
@@ -306,6 +322,19 @@ class TitanClientProtocol(asyncio.Protocol):
         """
         self.buffer += data
 
+        # A header line longer than the protocol allows is an error, however
+        # the bytes were split into reads
+        if not self.header_received:
+            header_end = self.buffer.find(CRLF)
+            if header_end > MAX_RESPONSE_HEADER_SIZE or (
+                header_end < 0 and len(self.buffer) > MAX_RESPONSE_HEADER_SIZE + 1
+            ):
+                self._set_error(ValueError("Response header too long"))
+                self.header_received = True
+                if self.transport:
+                    self.transport.close()
+                return
+
         # Check if we've received the complete header
         if not self.header_received and CRLF in self.buffer:
             header_line, body = self.buffer.split(CRLF, 1)
@@ -402,7 +431,7 @@ class TitanClientProtocol(asyncio.Protocol):
                             break
                 try:
                     body = self.buffer.decode(charset)
-                except UnicodeDecodeError as e:
+                except (UnicodeDecodeError, LookupError) as e:
                     self.response_future.set_exception(e)
                     return
             else:
